@@ -1,0 +1,214 @@
+//! Verification hooks. Compiled only with `--cfg agdb_verif`; never part of a normal build.
+//!
+//! * `fs_event`: called by `FileStorage` / `WriteAheadLog` immediately BEFORE every mutating
+//!   file system call (and around reads), so a harness can snapshot the files at that instant
+//!   and record the system call level trace.
+//! * `VStorage` / `VMap`: thin public wrappers over the crate private `Storage` and
+//!   `MultiMapStorage` with read only projections of their private state.
+
+use crate::DbError;
+use crate::StorageData;
+use crate::collections::map::MapData;
+use crate::collections::map::MapValueState;
+use crate::collections::multi_map::MultiMapStorage;
+use crate::storage::Storage;
+use crate::storage::StorageIndex;
+use std::cell::RefCell;
+
+#[derive(Debug, Clone)]
+pub enum FsEvent<'a> {
+    /// One `write_all` on the WAL file (a record is three of them: pos, len, value).
+    WalWrite { bytes: &'a [u8] },
+    /// `set_len` on the WAL file (`clear`, `repair`).
+    WalSetLen { len: u64 },
+    /// `seek + write_all` on the data file.
+    DataWrite { pos: u64, bytes: &'a [u8] },
+    /// `set_len` on the data file.
+    DataSetLen { len: u64 },
+    /// Between `seek` and `read_exact` of one read on the data file.
+    ReadSeek { pos: u64, len: u64 },
+    /// After `read_exact`.
+    ReadDone { pos: u64, bytes: &'a [u8] },
+    /// `FileStorage::read` decided which handle to use.
+    ReadHandle { shared: bool },
+}
+
+type Hook = Box<dyn FnMut(&FsEvent)>;
+
+thread_local! {
+    static FS_HOOK: RefCell<Option<Hook>> = const { RefCell::new(None) };
+}
+
+/// Installs (or removes) the calling thread's hook.
+pub fn set_fs_hook(hook: Option<Hook>) {
+    FS_HOOK.with(|c| *c.borrow_mut() = hook);
+}
+
+pub(crate) fn fs_event(event: FsEvent) {
+    FS_HOOK.with(|c| {
+        // a hook that itself touches storage must not re-enter
+        if let Ok(mut guard) = c.try_borrow_mut()
+            && let Some(hook) = guard.as_mut()
+        {
+            hook(&event);
+        }
+    });
+}
+
+/// Public wrapper over the crate private `Storage`.
+pub struct VStorage<D: StorageData>(Storage<D>);
+
+impl<D: StorageData> VStorage<D> {
+    pub fn new(name: &str) -> Result<Self, DbError> {
+        Ok(Self(Storage::new(name)?))
+    }
+
+    pub fn with_data(data: D) -> Result<Self, DbError> {
+        Ok(Self(Storage::with_data(data)?))
+    }
+
+    pub fn insert_bytes(&mut self, bytes: &[u8]) -> Result<u64, DbError> {
+        Ok(self.0.insert_bytes(bytes)?.0)
+    }
+
+    pub fn insert_bytes_at(
+        &mut self,
+        index: u64,
+        offset: u64,
+        bytes: &[u8],
+    ) -> Result<(), DbError> {
+        self.0.insert_bytes_at(StorageIndex(index), offset, bytes)
+    }
+
+    pub fn replace_with_bytes(&mut self, index: u64, bytes: &[u8]) -> Result<(), DbError> {
+        self.0.replace_with_bytes(StorageIndex(index), bytes)
+    }
+
+    pub fn resize_value(&mut self, index: u64, new_size: u64) -> Result<(), DbError> {
+        self.0.resize_value(StorageIndex(index), new_size)
+    }
+
+    pub fn move_at(&mut self, index: u64, from: u64, to: u64, size: u64) -> Result<(), DbError> {
+        self.0.move_at(StorageIndex(index), from, to, size)
+    }
+
+    pub fn remove(&mut self, index: u64) -> Result<(), DbError> {
+        self.0.remove(StorageIndex(index))
+    }
+
+    pub fn optimize_storage(&mut self) -> Result<(), DbError> {
+        self.0.optimize_storage()
+    }
+
+    pub fn transaction(&mut self) -> u64 {
+        self.0.transaction()
+    }
+
+    pub fn commit(&mut self, id: u64) -> Result<(), DbError> {
+        self.0.commit(id)
+    }
+
+    pub fn len(&self) -> u64 {
+        self.0.len()
+    }
+
+    pub fn is_empty(&self) -> bool {
+        self.0.len() == 0
+    }
+
+    pub fn value_as_bytes(&self, index: u64) -> Result<Vec<u8>, DbError> {
+        Ok(self.0.value_as_bytes(StorageIndex(index))?.to_vec())
+    }
+
+    pub fn value_size(&self, index: u64) -> Result<u64, DbError> {
+        self.0.value_size(StorageIndex(index))
+    }
+
+    /// `(index, pos, size)` of all valid records ordered by position.
+    pub fn records(&self) -> Vec<(u64, u64, u64)> {
+        self.0.verif_records()
+    }
+
+    /// `(pos, size)` of all regions in the in-memory free index ordered by position.
+    pub fn free_regions(&self) -> Vec<(u64, u64)> {
+        self.0.verif_free_regions()
+    }
+
+    /// The raw bytes of the underlying data as `StorageData::read` reports them.
+    pub fn raw(&self) -> Result<Vec<u8>, DbError> {
+        self.0.verif_raw()
+    }
+}
+
+/// Public wrapper over `MultiMapStorage<u64, u64, D>` living in its own `Storage`.
+pub struct VMap<D: StorageData> {
+    storage: Storage<D>,
+    map: MultiMapStorage<u64, u64, D>,
+}
+
+impl<D: StorageData> VMap<D> {
+    pub fn new(name: &str) -> Result<Self, DbError> {
+        let mut storage = Storage::new(name)?;
+        let map = MultiMapStorage::new(&mut storage)?;
+        Ok(Self { storage, map })
+    }
+
+    pub fn insert(&mut self, key: u64, value: u64) -> Result<(), DbError> {
+        self.map.insert(&mut self.storage, &key, &value)
+    }
+
+    /// `insert_or_replace` with the predicate "old value equals `old`".
+    pub fn insert_or_replace(
+        &mut self,
+        key: u64,
+        old: u64,
+        value: u64,
+    ) -> Result<Option<u64>, DbError> {
+        self.map
+            .insert_or_replace(&mut self.storage, &key, |v| *v == old, &value)
+    }
+
+    pub fn remove_key(&mut self, key: u64) -> Result<(), DbError> {
+        self.map.remove_key(&mut self.storage, &key)
+    }
+
+    pub fn remove_value(&mut self, key: u64, value: u64) -> Result<(), DbError> {
+        self.map.remove_value(&mut self.storage, &key, &value)
+    }
+
+    pub fn values(&self, key: u64) -> Result<Vec<u64>, DbError> {
+        self.map.values(&self.storage, &key)
+    }
+
+    pub fn len(&self) -> u64 {
+        self.map.len()
+    }
+
+    pub fn is_empty(&self) -> bool {
+        self.map.len() == 0
+    }
+
+    pub fn capacity(&self) -> u64 {
+        self.map.capacity()
+    }
+
+    /// Slot states (0 empty, 1 valid, 2 deleted) with key and value.
+    pub fn slots(&self) -> Result<Vec<(u8, u64, u64)>, DbError> {
+        let mut slots = Vec::with_capacity(self.map.capacity() as usize);
+
+        for i in 0..self.map.capacity() {
+            let state = match self.map.data.state(&self.storage, i)? {
+                MapValueState::Empty => 0,
+                MapValueState::Valid => 1,
+                MapValueState::Deleted => 2,
+            };
+            slots.push((
+                state,
+                self.map.data.key(&self.storage, i)?,
+                self.map.data.value(&self.storage, i)?,
+            ));
+        }
+
+        Ok(slots)
+    }
+}
